@@ -61,6 +61,8 @@ def query_axioms():
         QL >= 0,
         QP(0) == ROOTP,
         z3.ForAll([i], z3.Implies(i >= 0, QP(i + 1) == EXT(QP(i), QS(i)))),
+        # (consequence of the line above: a non-empty path is never the root path)
+        z3.ForAll([i], z3.Implies(i >= 1, QP(i) != ROOTP)),
         PRE(0) == bytes_val(b""),
         z3.ForAll([i], z3.Implies(i >= 0, PRE(i + 1) == bcat(PRE(i), QS(i)))),
         # every stem is closed by the separator, hence non-empty (contract of lru_iter)
@@ -1342,3 +1344,350 @@ def install(lib):
         lib.loop_spec("LRUTrie.%s::while#0" % nm, LoopSpec(reader_while_inv, havoc=havoc_reader_node))
     cs = [c for c in cs if c.qual != "LRUTrie.follow_lru"]
     return cs + [FollowHistory()]
+
+
+# ============================================================================ completeness of the point readers (C02 "iff", C04 "longest")
+def stored(p, j):
+    """some head spells the first j stems of the query (through the inverse path map)"""
+    w = TW(p)
+    u = z3.Select(p.w["G.addr"], QP(j))
+    return z3.And(w.head(u), w.path(u) == QP(j))
+
+
+def prefix_closure(p):
+    """L-PREFIX: stored LRUs are closed under stem-prefix (for the query's prefixes):
+    by induction on j2 - j1 from the single step `stored(j+1) => stored(j)`, which is
+    discharged as `lemma:L-PREFIX:step`"""
+    j1, j2 = z3.Ints("j1 j2")
+    return z3.ForAll([j1, j2], z3.Implies(z3.And(j1 >= 1, j1 <= j2, j2 <= QL, stored(p, j2)), stored(p, j1)))
+
+
+def instances_at(p, terms):
+    """ground instances of the single-variable invariant clauses at the given addresses
+    (instantiation hints, DESIGN 3.7: the clauses are premises, so this is sound)"""
+    out = []
+    for nm, f in Inv(p):
+        if z3.is_quantifier(f) and f.num_vars() == 1 and f.var_sort(0) == INT:
+            for t in terms:
+                out.append(z3.substitute_vars(f.body(), t))
+    return out
+
+
+def closure_step_lemma(ex, p):
+    w = TW(p)
+    q = p.fork()
+    j = fresh("j", INT)
+    q.assume(z3.And(j >= 1, j < QL))
+    q.assume(stored(q, j + 1))
+    u = z3.Select(q.w["G.addr"], QP(j + 1))
+    for f in instances_at(q, [u, w.f("parent", u)]):
+        q.assume(f)
+    ex.oblige(q, "lemma:L-PREFIX:step", stored(q, j), None)
+
+
+def matched_current_level(p1):
+    """was the `return None` taken after the node of level i matched (no child) rather
+    than inside the sibling search?"""
+    n_ = p1.env.get("node")
+    if isinstance(n_, Ref) and "stem" in p1.env:
+        try:
+            o_ = p1.obj(n_)
+            d_ = node_data(p1, n_)
+            eq = bcat(to_z3(d_[0]), to_z3(o_.f["tail"])) == to_z3(p1.env["stem"])
+            eqs = z3.simplify(eq)
+            return any(c.eq(eq) or c.eq(eqs) for c in p1.pc)
+        except Exception:
+            return False
+    return False
+
+
+def none_means_not_stored(ex, p1):
+    """at a `return None` of lru_node / follow_lru with m-1 levels matched: the m-th
+    stem-prefix of the query is not stored, hence (L-PREFIX) no longer one is, the whole
+    query included"""
+    w = TW(p1)
+    i = to_z3(p1.env["i"])
+    m = i + 2 if matched_current_level(p1) else i + 1
+    q = p1.fork()
+    u1 = z3.Select(q.w["G.addr"], QP(i + 1))
+    u2 = z3.Select(q.w["G.addr"], QP(i + 2))
+    terms = [u1, w.f("parent", u1), u2, w.f("parent", u2)]
+    n = p1.env.get("node")
+    if isinstance(n, Ref) and p1.obj(n).f["block"] is not None:
+        terms.append(node_blk(p1, n))
+    for f in instances_at(q, terms):
+        q.assume(f)
+    ex.oblige(q, "None=>the-first-unmatched-stem-prefix-is-not-stored", z3.Not(stored(q, m)), None)
+    ex.oblige(p1, "None=>the-first-unmatched-level-lies-within-the-query", z3.And(m >= 1, m <= QL), None)
+    q2 = p1.fork()
+    q2.pc = [c for c in q2.pc if not _has_quant_(c)]  # only the closure lemma and the fact above are needed
+    q2.assume(prefix_closure(q2))
+    q2.assume(z3.Not(stored(q2, m)))
+    q2.assume(z3.And(m >= 1, m <= QL))
+    j = fresh("j", INT)
+    ex.oblige(q2, "None=>no-longer-stem-prefix-is-stored(the-query-included)", z3.Implies(z3.And(j >= m, j <= QL), z3.Not(stored(q2, j))), None)
+
+
+def _has_quant_(c):
+    from pyvc.sym import _has_quant
+
+    return _has_quant(c)
+
+
+_reader_check0 = Reader.check
+
+
+def _reader_check(self, ex, p0, res, tag):
+    _reader_check0(self, ex, p0, res, tag)
+    closure_step_lemma(ex, p0)
+    for p1, kind, val in res:
+        if kind == "raise":
+            continue
+        node = val[0] if isinstance(val, tuple) else val
+        if node is None and "i" in p1.env:
+            none_means_not_stored(ex, p1)
+
+
+Reader.check = _reader_check
+
+
+# ============================================================================ dfs_iter / pages_iter (C01, C02: traversal yields byte-identical LRUs)
+def dfs_phi(ex, p, e):
+    """work-list entry (block, lru): block is a head and lru is what its ancestors spell"""
+    w = TW(p)
+    b, lru = e
+    cs = []
+    if isinstance(b, Opt):
+        cs.append(("block-is-not-None", znot(b.none) if not isinstance(b.none, bool) else z3.BoolVal(not b.none)))
+        b = b.val
+    bz = to_z3(b)
+    cs.append(("block-is-a-head", w.head(bz)))
+    cs.append(("carried-lru==bytes-spelled-above-the-block", to_z3(lru) == LRUB(w.gpath(bz))))
+    return cs
+
+
+def dfs_mk():
+    return (fresh("wl_block", INT), fresh("wl_lru", BYTES))
+
+
+def dfs_inv(ex, p):
+    st = p.env["stack"]
+    o = p.obj(st)
+    cs = []
+    if o.cls == "list":
+        for k, e in enumerate(o.f["items"]):
+            cs += [("entry%d:%s" % (k, nm), f) for nm, f in dfs_phi(ex, p, e)]
+    else:
+        cs.append(("worklist-size-nonnegative", o.f["n"] >= 0))
+    return cs
+
+
+def dfs_havoc(ex, p):
+    p.env["stack"] = p.new_obj("bag", {"phi": dfs_phi, "mk": dfs_mk, "n": fresh("wl_n", INT)})
+    n = p.env["node"]
+    store = p.obj(n).f["storage"]
+    p.env["node"] = Wd.sym_node(p, store, "node")
+
+
+class DfsIter(Contract):
+    """dfs_iter() / pages_iter() from the root, soundness: every yielded (node, lru) is a
+    Fresh head together with exactly the bytes of its stored path (pages_iter: and it
+    carries the page bit); nothing is raised, nothing written.  skip_childless_paths is
+    symbolic.  (Every head exactly once: bounded.)"""
+
+    def __init__(self, name):
+        self.qual = "LRUTrie." + name
+        self.name = name
+
+    def setups(self, ex):
+        p, w, store, trie = base()
+        snapshot_old(p)
+        if self.name == "dfs_iter":
+            skip = fresh("skip_childless_paths", BOOL)
+            yield p, trie, [], {"skip_childless_paths": skip}, "from-the-root"
+        else:
+            yield p, trie, [], {}, "from-the-root"
+
+    def on_yield(self, ex, p, v, ln, tag):
+        w = TW(p)
+        if not (isinstance(v, tuple) and len(v) == 2 and isinstance(v[0], Ref)):
+            ex.oblige(p, "yields-(node,lru)", False, ln)
+            return []
+        node, lru = v
+        b = node_blk(p, node)
+        for nm, f in is_fresh(ex, p, node, "yielded-node"):
+            ex.oblige(p, nm, f, ln)
+        ex.oblige(p, "yielded-node-is-a-head", w.head(b), ln)
+        ex.oblige(p, "yielded-lru==bytes-of-the-node's-stored-path", to_z3(lru) == LRUB(w.path(b)), ln)
+        if self.name == "pages_iter":
+            ex.oblige(p, "yielded-node-is-a-page", w.flag(b, PAGE), ln)
+        p.mut += 1
+        return [(p, "normal", None)]
+
+    def check(self, ex, p0, res, tag):
+        for p1, kind, val in res:
+            if kind == "raise":
+                ex.oblige(p1, "raises-nothing(%s)" % val[0], False, val[1])
+                continue
+            for k in TKEYS:
+                if not p1.w[k].eq(p0.w[k]):
+                    ex.oblige(p1, "store-unchanged[%s]" % k, p1.w[k] == p0.w[k], None)
+
+
+_install_prev8 = install
+
+
+def install(lib):
+    cs = _install_prev8(lib)
+    lib.loop_spec("LRUTrie.dfs_iter::while#0", LoopSpec(dfs_inv, havoc=dfs_havoc))
+    return cs + [DfsIter("dfs_iter"), DfsIter("pages_iter")]
+
+
+# ============================================================================ webentity_dfs_iter (C05, C20: the realm walk)
+# REL(a): head a belongs to the realm of the start block SB - it is SB, or it carries no
+# webentity and its parent belongs to the realm.  DEPTHF(a): number of stems of a's LRU.
+# Both are spec functions of the (constant) store, well-founded on the parent pointer.
+REL = z3.Function("REL", INT, BOOL)
+DEPTHF = z3.Function("DEPTHF", INT, INT)
+SB = z3.Int("SB")
+DIRNAME = z3.Function("DIRNAME", BYTES, BYTES)
+
+
+def realm_axioms(p):
+    w = TW(p)
+    a = z3.Int("a")
+    pa = w.f("parent", a)
+    return [
+        z3.ForAll([a], z3.Implies(w.head(a), REL(a) == z3.Or(a == SB, z3.And(w.f("we", a) == 0, pa != 0, REL(pa))))),
+        z3.ForAll([a], z3.Implies(w.head(a), DEPTHF(a) == z3.If(pa == 0, 1, DEPTHF(pa) + 1))),
+    ]
+
+
+def _dirname_axioms(terms):
+    out = []
+    for t in terms:
+        if z3.is_app(t) and t.decl().name() == "ext":
+            out.append(DIRNAME(LRUB(t)) == LRUB(t.arg(0)))
+    return out
+
+
+if _dirname_axioms not in smt.TERM_AXIOMS:
+    smt.TERM_AXIOMS.append(_dirname_axioms)
+smt.GLOBAL_SYMBOLS.update({"DIRNAME", "REL", "DEPTHF", "SB"})
+
+
+class LruDirname(Contract):
+    """lru_dirname(lru): the LRU without its last stem.  ASSUMED (trusted contract, like
+    lru_iter: it is `b''.join(list(lru_iter(lru))[:-1])`; bounded-checked)."""
+
+    qual = "lru_dirname"
+    trusted = True
+
+    def setups(self, ex):
+        return iter(())
+
+    def apply(self, ex, p, recv, args, kw, ln):
+        return [(p, DIRNAME(to_z3(args[0])))]
+
+
+def realm_phi(ex, p, e):
+    w = TW(p)
+    b, lru, level = e
+    cs = []
+    if isinstance(b, Opt):
+        cs.append(("block-is-not-None", znot(b.none) if not isinstance(b.none, bool) else z3.BoolVal(not b.none)))
+        b = b.val
+    bz = to_z3(b)
+    pa = w.f("parent", bz)
+    cs.append(("block-is-a-head", w.head(bz)))
+    cs.append(("carried-lru==bytes-spelled-above-the-block", to_z3(lru) == LRUB(w.gpath(bz))))
+    cs.append(("block-is-the-start-or-its-parent-is-in-the-realm", z3.Or(bz == SB, z3.And(pa != 0, REL(pa)))))
+    cs.append(("carried-level==depth-below-the-start", to_z3(level) == DEPTHF(bz) - DEPTHF(SB)))
+    md = p.env.get("max_depth")
+    if md is not None:
+        cs.append(("carried-level-within-the-depth-limit", to_z3(level) <= to_z3(md)))
+    return cs
+
+
+def realm_mk():
+    return (fresh("wl_block", INT), fresh("wl_lru", BYTES), fresh("wl_level", INT))
+
+
+def realm_inv(ex, p):
+    o = p.obj(p.env["stack"])
+    cs = []
+    if o.cls == "list":
+        for k, e in enumerate(o.f["items"]):
+            cs += [("entry%d:%s" % (k, nm), f) for nm, f in realm_phi(ex, p, e)]
+    else:
+        cs.append(("worklist-size-nonnegative", o.f["n"] >= 0))
+    return cs
+
+
+def realm_havoc(ex, p):
+    p.env["stack"] = p.new_obj("bag", {"phi": realm_phi, "mk": realm_mk, "n": fresh("wl_n", INT)})
+    n = p.env["node"]
+    store = p.obj(n).f["storage"]
+    p.env["node"] = Wd.sym_node(p, store, "node")
+
+
+class WebentityDfs(Contract):
+    """webentity_dfs_iter(start, lru_of_start, max_depth), soundness: every yielded
+    (node, lru) is a Fresh head of the realm of the start (REL: no webentity strictly
+    between, none on the node unless it is the start) with the bytes of its stored path,
+    at most max_depth stems below the start.  Nothing raised, nothing written.
+    (Every realm member exactly once: bounded.)"""
+
+    qual = "LRUTrie.webentity_dfs_iter"
+
+    def setups(self, ex):
+        for limited in (False, True):
+            p, w, store, trie = base()
+            for ax in realm_axioms(p):
+                p.assume(ax)
+            p.assume(w.head(SB))
+            n = fresh_node_at(p, store, SB)
+            lru = fresh("starting_lru", BYTES)
+            p.assume(lru == LRUB(w.path(SB)))
+            snapshot_old(p)
+            if limited:
+                md = fresh("max_depth", INT)
+                p.assume(md >= 0)
+                p.w["__md"] = md
+                yield p, trie, [n, lru, md], {}, "limited"
+            else:
+                yield p, trie, [n, lru], {}, "unlimited"
+
+    def on_yield(self, ex, p, v, ln, tag):
+        w = TW(p)
+        if not (isinstance(v, tuple) and len(v) == 2 and isinstance(v[0], Ref)):
+            ex.oblige(p, "yields-(node,lru)", False, ln)
+            return []
+        node, lru = v
+        b = node_blk(p, node)
+        for nm, f in is_fresh(ex, p, node, "yielded-node"):
+            ex.oblige(p, nm, f, ln)
+        ex.oblige(p, "yielded-node-is-a-head-of-the-realm", z3.And(w.head(b), REL(b)), ln)
+        ex.oblige(p, "yielded-lru==bytes-of-the-node's-stored-path", to_z3(lru) == LRUB(w.path(b)), ln)
+        if tag == "limited":
+            ex.oblige(p, "yielded-node-within-the-depth-limit", DEPTHF(b) - DEPTHF(SB) <= p.w["__md"], ln)
+        p.mut += 1
+        return [(p, "normal", None)]
+
+    def check(self, ex, p0, res, tag):
+        for p1, kind, val in res:
+            if kind == "raise":
+                ex.oblige(p1, "raises-nothing(%s)" % val[0], False, val[1])
+                continue
+            for k in TKEYS:
+                if not p1.w[k].eq(p0.w[k]):
+                    ex.oblige(p1, "store-unchanged[%s]" % k, p1.w[k] == p0.w[k], None)
+
+
+_install_prev9 = install
+
+
+def install(lib):
+    cs = _install_prev9(lib)
+    lib.loop_spec("LRUTrie.webentity_dfs_iter::while#0", LoopSpec(realm_inv, havoc=realm_havoc))
+    return cs + [LruDirname(), WebentityDfs()]
